@@ -3,6 +3,7 @@
 # and the cross-backend tool once per arithmetic backend.
 set -e
 export CARGO_NET_OFFLINE=true
+export CARGO_TARGET_DIR=/verif/.target
 cd /verif/harness
 cargo build --release --offline
 cargo build --profile checked --offline
